@@ -10,19 +10,26 @@
    helper.Deprecated (it cannot locate a plain def).  The wrapper only calls warnings.warn and then the
    function; the body is exactly one call of _setPropertyValue, i.e. the script of Property.propertyValue
    (generated).  Both modes of the _mediaQuery flag are listed, like the generated scripts.            *)
-From CssV Require Import Base Atomic AtomicFacts Gen.Scripts.
+From CssV Require Import Base Atomic AtomicFacts AtomicLenient Gen.Scripts.
 Open Scope string_scope.
 Open Scope list_scope.
 
-Definition script_Property_cssValue : script := Scope script_Property_propertyValue.
-Definition script_Property_cssValue__mediaQuery_ : script := Scope script_Property_propertyValue__mediaQuery_.
+Definition lscript_Property_cssValue : lscript := LScope lscript_Property_propertyValue.
+Definition lscript_Property_cssValue__mediaQuery_ : lscript := LScope lscript_Property_propertyValue__mediaQuery_.
+Definition script_Property_cssValue : script := erase lscript_Property_cssValue.
+Definition script_Property_cssValue__mediaQuery_ : script := erase lscript_Property_cssValue__mediaQuery_.
 
 Definition hand_scripts : list (string * script) :=
   [ ("Property.cssValue", script_Property_cssValue);
     ("Property.cssValue[_mediaQuery]", script_Property_cssValue__mediaQuery_) ].
 
+Definition hand_lscripts : list (string * lscript) :=
+  [ ("Property.cssValue", lscript_Property_cssValue);
+    ("Property.cssValue[_mediaQuery]", lscript_Property_cssValue__mediaQuery_) ].
+
 (* every text setter of the anchored files: generated + hand-transcribed *)
 Definition setters : list (string * script) := anchored_scripts ++ hand_scripts.
+Definition lsetters : list (string * lscript) := anchored_lscripts ++ hand_lscripts.
 
 Fixpoint names_in (ns : list string) (l : list (string * script)) : bool :=
   match ns with
@@ -65,3 +72,33 @@ Lemma repaired_setters_atomic :
   atomic script_ColorValue_cssText = true /\ atomic script_CSSNamespaceRule_cssText = true /\
   atomic script_CSSImportRule_href = true.
 Proof. vm_compute. repeat split; reflexivity. Qed.
+
+(* ------------------------------------------------------------------ lenient mode (second theorem) *)
+(* not covered by the lenient statement:
+   - CSSImportRule.cssText: the open finding (also refuted in raising mode);
+   - Property.cssText[_mediaQuery]: the `_mediaQuery and not valuetokens` shortcut resets value and priority although the
+     name may have been rejected; the mode is selected by a private constructor flag that nothing in the library sets. *)
+Definition lenient_excluded (name : string) : bool :=
+  String.eqb name "CSSImportRule.cssText" || String.eqb name "Property.cssText[_mediaQuery]".
+
+Definition all_lenient_but_excluded : bool :=
+  forallb (fun p : string * lscript => lenient_excluded (fst p) || atomic_lenient (snd p)) lsetters.
+
+Lemma all_lenient_but_excluded_true : all_lenient_but_excluded = true.
+Proof. vm_compute. reflexivity. Qed.
+
+Lemma lsetters_unchanged_partial :
+  forall name s, In (name, s) lsetters -> lenient_excluded name = false ->
+    forall ro ws f o, lexec ro s false (ws, f, o) -> f = true \/ o = ORaise -> ws = [].
+Proof.
+  intros name s Hin Hex. apply atomic_lenient_sound.
+  pose proof all_lenient_but_excluded_true as H. unfold all_lenient_but_excluded in H.
+  rewrite forallb_forall in H. specialize (H _ Hin). simpl in H. rewrite Hex in H. exact H.
+Qed.
+
+(* the two lists describe the same setters: the raising-mode script is the erasure of the lenient one *)
+Lemma setters_are_erased : map (fun p : string * lscript => (fst p, erase (snd p))) lsetters = setters.
+Proof. reflexivity. Qed.
+
+Lemma mq_shortcut_refuted : atomic_lenient lscript_Property_cssText__mediaQuery_ = false.
+Proof. vm_compute. reflexivity. Qed.
